@@ -144,6 +144,18 @@ class Builder:
             self.add({"op": "store", "e": ref[1], "tag": tag})
             self.own_count[ref[1]] = self.own_count.get(ref[1], 0) + 1
 
+    def natural_fault_prefix(self, k):
+        """Declared natural faults: estimating steps on a still empty storage.  The unchanged library raises
+        (random.randrange(0)) and leaves every estimate untouched; the operations are marked expect_raise, so the
+        executor tolerates either outcome and the oracles judge what the explainer looks like afterwards."""
+        r = self.rng
+        for j in range(r.randint(2, 3)):
+            op = {"op": "explain", "e": k, "tag": self.fresh_tag(), "us": False}
+            if j >= 1:
+                op["expect_raise"] = True
+            self.add(op)
+            self.calls[k] = self.calls.get(k, 0) + 1
+
     def explain(self, k, allow_us_false=True, p_override=0.2, extra=None):
         r = self.rng
         ecfg = self.ecfg(k)
@@ -322,13 +334,18 @@ def gen_world_config(rng, focus, arith=None, d=None, names_kind=None):
     return cfg
 
 
-def gen_schedule(rng, cfg, T=None, mix=None):
+def gen_schedule(rng, cfg, T=None, mix=None, p_natural=0.08):
     b = Builder(rng, cfg)
     T = T or wchoice(rng, [(rng.randint(3, 8), 30), (rng.randint(8, 20), 40), (rng.randint(20, 40), 22),
                            (rng.randint(40, 60), 8)])
     mix = mix or [("explain", 70), ("learn", 10), ("store", 8), ("observe", 12)]
     n_e = len(cfg["explainers"])
     example_layout = any(e.get("_p_us_false") == 1.0 for e in cfg["explainers"])
+    if rng.random() < p_natural:
+        ks = [k for k, e in enumerate(cfg["explainers"]) if e["cls"] in ("pfi", "sage")
+              and b.imputer_storage(k) is not None and b.storage_count(b.imputer_storage(k)) == 0]
+        if ks:
+            b.natural_fault_prefix(rng.choice(ks))
     while len(b.ops) < T:
         kind = wchoice(rng, mix)
         if kind == "explain":
